@@ -784,7 +784,7 @@ def check_property(pid, tier, seed):
             if kpats:
                 import vkani
                 kres = vkani.run_harnesses(kpats, tier)
-                kfail = [{"kind": "kani", "harness": h, "failed_checks": r.get("failed_checks", [])[:5]} for h, r in kres.get("harnesses", {}).items() if r["status"] == "FAILED"]
+                kfail = [{"kind": "kani", "harness": h, "failed_checks": r.get("failed_checks", [])[:5], "detail": r.get("detail", ""), "values": r.get("values")} for h, r in kres.get("harnesses", {}).items() if r["status"] == "FAILED"]
         except Exception as e3:
             kfail = []
         try:
